@@ -6,7 +6,7 @@
 const char *op_kind_name[] = {"create", "open", "close", "abort", "redef", "enddef", "_enddef", "begin_indep", "end_indep", "sync", "sync_numrecs", "flush",
                               "syncpoint", "barrier", "checkpoint", "def_dim", "def_var", "def_var_fill", "set_fill", "fill_var_rec", "put_att", "del_att",
                               "rename_att", "copy_att", "rename_dim", "rename_var", "put", "get", "iput", "iget", "bput", "wait", "cancel", "attach", "detach",
-                              "inq", "badid", "delete", "set_default_format", "probe", "openprobe"};
+                              "inq", "badid", "delete", "set_default_format", "probe", "openprobe", "bigcase"};
 
 int nc_type_size(int t) {
     switch (t) { case NC_BYTE: case NC_CHAR: case NC_UBYTE: return 1; case NC_SHORT: case NC_USHORT: return 2; case NC_INT: case NC_FLOAT: case NC_UINT: return 4;
@@ -297,7 +297,7 @@ static bool model_step_inner(Model &m, Op &op) {
     op.snap.reset(); op.msnap.reset(); op.exp_nreqs.clear(); op.exp_usage.clear();
     if (op.kind == OP_BARRIER) { m.pending_reads.clear(); bb_ordered(m); return true; }
     if (op.kind == OP_BADID) { op.exp_rc = NC_EBADID; return true; }
-    if (op.kind == OP_OPENPROBE) { op.rc_any = true; return true; }   // open an arbitrary byte image: handled entirely by the interpreter   // a call on an id that is not open: always applicable
+    if (op.kind == OP_OPENPROBE || op.kind == OP_BIGCASE) { op.rc_any = true; return true; }   // open an arbitrary byte image: handled entirely by the interpreter   // a call on an id that is not open: always applicable
     if (op.kind == OP_CHECKPOINT) {
         m.pending_reads.clear(); bb_ordered(m);
         if (op.a[0] == 1) { if (op.file < 0 || op.file >= (int)m.files.size() || !m.files[op.file].open || !m.files[op.file].in_redef) { op.skip = true; return false; } m.snap_state[op.file] = 1; op.name = m.files[op.file].path; }
